@@ -262,3 +262,45 @@ def job_hashes(tier, seed):
     except (NotImplementedError, IndexError) as e:
         return {"verdict": "INCONCLUSIVE", "detail": str(e)}
     return merge(res)
+
+
+# ---------------------------------------------------------------- 2.1 property names (C19)
+def replay_prop_name(w):
+    """register a 2.1 custom object whose property is called w (on a copy of the registry): accepted iff w obeys the 2.1 naming rule"""
+    import stix2
+    from stix2 import registry
+    saved = dict(registry.STIX2_OBJ_MAPS["2.1"]["objects"])
+    try:
+        try:
+            @stix2.v21.CustomObject("x-prop-name-probe", [(w, P.StringProperty())])
+            class Probe(object):
+                pass
+            got = True
+        except (ValueError, stix2.exceptions.STIXError, TypeError):
+            got = False
+    finally:
+        registry.STIX2_OBJ_MAPS["2.1"]["objects"].clear()
+        registry.STIX2_OBJ_MAPS["2.1"]["objects"].update(saved)
+    full = bool(re.fullmatch(r"[a-z][a-z0-9_]{2,249}", w, re.A))
+    if K.open("C19-propname-chars"):
+        # known open finding: only the first character is checked -- the excluded class is "starts with a-z but breaks the full rule"
+        return (not got) or bool(re.match(r"[a-z]", w, re.A))
+    return (not got) or full
+
+
+def job_prop_names(tier, seed):
+    """names accepted by the 2.1 property-name check satisfy the specification's rule (a-z first, then a-z 0-9 _, 3..250 chars)"""
+    from stix2 import registration
+    try:
+        method, pat = mode_and_pattern(registration._validate_props, vars(registration))
+        impl = lang_for(method, pat)
+    except NotImplementedError as e:
+        return {"verdict": "INCONCLUSIVE", "detail": str(e)}
+    body = z3.Union(z3.Range("a", "z"), DIG, z3.Re("_"))
+    full = z3.Concat(z3.Range("a", "z"), z3.Loop(body, 2, 249))
+    weak = z3.Concat(z3.Range("a", "z"), z3.Star(ANY))
+    spec = weak if K.open("C19-propname-chars") else full
+    r = run_inclusion("2.1 property name", impl, spec, "replay_prop_name", directions=("impl_not_spec",), pat=pat, method=method,
+                      samples=["abc", "aB", "a", "9ab", "_ab", "a-b", "abc\n", "x_foo"])
+    r.setdefault("extra", {})["excluded_known_class"] = "starts with a-z but contains other characters / too short" if K.open("C19-propname-chars") else None
+    return r
